@@ -333,3 +333,70 @@ def absorbed_put_refused(ctx, prop):
                           'the level (level + amount == level): a full container grants puts for ever' %
                           (ast.unparse(n.test)[:160], 'holds' if granted else 'cannot be shown to fail'),
                           where='%s:%d' % (f.module.relpath, n.lineno))
+
+
+def stored_level_tested(ctx, prop):
+    """The level a Container stores must be a value the grant guard has compared with the capacity.  Testing the room
+    (`capacity - level >= amount`) and then storing `level + amount` are the same over the reals, but the stored sum
+    is rounded on its own and can land above the capacity (capacity 3.4, level 1.2, put 2.2 -> 3.4000000000000004).
+    Structural: some conjunct of the guard is `<what is stored> <= capacity` (through single-assignment temporaries)."""
+    from ..terms import term
+    rule = prop + '.G.stored-level-tested'
+    c = ctx.repo.find_class('Container')
+    f = c.methods.get('_do_put')
+    if f is None:
+        raise AnalysisError('%s: anchor vanished: Container._do_put' % rule)
+    temps, count = {}, {}
+    for n in walk_local(f.node):
+        if isinstance(n, ast.Assign) and len(n.targets) == 1 and isinstance(n.targets[0], ast.Name):
+            temps[n.targets[0].id] = n.value
+            count[n.targets[0].id] = count.get(n.targets[0].id, 0) + 1
+    temps = {k: v for k, v in temps.items() if count[k] == 1}
+
+    class R(ast.NodeTransformer):
+        def visit_Name(self, x):
+            if x.id in temps and isinstance(x.ctx, ast.Load):
+                return self.visit(ast.parse(ast.unparse(temps[x.id]), mode='eval').body)
+            return x
+
+    def canon(e):
+        return term(R().visit(ast.parse(ast.unparse(e), mode='eval').body))
+    stored = []
+    for n in walk_local(f.node):
+        if isinstance(n, ast.Assign) and len(n.targets) == 1 and isinstance(n.targets[0], ast.Attribute) and n.targets[0].attr in ('_level', 'level') \
+                and isinstance(n.targets[0].value, ast.Name) and n.targets[0].value.id == 'self':
+            stored.append((n, canon(n.value)))
+        elif isinstance(n, ast.AugAssign) and isinstance(n.target, ast.Attribute) and n.target.attr in ('_level', 'level') and isinstance(n.op, ast.Add):
+            stored.append((n, canon(ast.BinOp(left=ast.Attribute(value=ast.Name(id='self', ctx=ast.Load()), attr=n.target.attr, ctx=ast.Load()),
+                                               op=ast.Add(), right=n.value))))
+    if not stored:
+        raise AnalysisError('%s: Container._do_put stores no level any more' % rule)
+    tested = set()
+    for n in walk_local(f.node):
+        if isinstance(n, ast.Compare) and len(n.ops) == 1:
+            l, r = n.left, n.comparators[0]
+            if isinstance(n.ops[0], ast.LtE) and ast.unparse(r) in ('self._capacity', 'self.capacity'):
+                tested.add(canon(l))
+            if isinstance(n.ops[0], ast.GtE) and ast.unparse(l) in ('self._capacity', 'self.capacity'):
+                tested.add(canon(r))
+    # temporaries holding the capacity
+    for k, v in temps.items():
+        if ast.unparse(v) in ('self._capacity', 'self.capacity'):
+            for n in walk_local(f.node):
+                if isinstance(n, ast.Compare) and len(n.ops) == 1:
+                    l, r = n.left, n.comparators[0]
+                    if isinstance(n.ops[0], ast.LtE) and isinstance(r, ast.Name) and r.id == k:
+                        tested.add(canon(l))
+                    if isinstance(n.ops[0], ast.GtE) and isinstance(l, ast.Name) and l.id == k:
+                        tested.add(canon(r))
+    construct = '%s::%s' % (f.module.relpath, f.qualname)
+    for n, val in stored:
+        ok = val in tested
+        ctx.ob(rule, ok)
+        if ok:
+            ctx.sample(rule, construct, 'the stored level %s is compared with the capacity before it is stored' % val)
+        else:
+            ctx.violation(rule, construct, 'stored level not tested',
+                          'Container._do_put stores %s, a sum the guard never compares with the capacity (it tests %s): the rounded sum '
+                          'can exceed the capacity although the room test passed' % (val, sorted(tested) or 'nothing of that form'),
+                          where='%s:%d' % (f.module.relpath, n.lineno))
